@@ -323,7 +323,7 @@ class SaltMenuPart(Part):
 
 class Aws32Part(Part):
     name = "forms_with_a_32_character_key"
-    desc = "the forms that take exactly 32 characters (AWS pre-shared keys), with an all-digit, a hexadecimal, a type-7-shaped and a free-text key: format and context kept"
+    desc = "the forms that take exactly 32 characters (AWS pre-shared keys), with an all-digit, a hexadecimal, a type-7-shaped and a free-text key, alone on the line and inside a longer line: format and context kept"
 
     def __init__(self, tier, seed):
         self.tier, self.seed = tier, seed
@@ -341,8 +341,12 @@ class Aws32Part(Part):
         if "only" in case:
             secs = [case["only"][0]]
         lines, meta = [], []
-        for sec in secs:
-            ln = secdom.fill(f["template"], [sec])
+        # the form alone on its line, and inside a longer line (compact JSON / XML on one line, a trailing remark)
+        around = [("", ""), ("{", ' "TunnelInsideCidr": "169.254.10.0/30"}'), ("", '"Next":"x","Port":500}'),
+                  ("<tunnel>", "<mode>main</mode></tunnel>"), ("  ", " // rotated 2019-03-01, previous key revoked by the operator"),
+                  ("{ ", " \"a\": \"0123456789abcdef0123456789abcdef0123456789abcdef0123456789abcdef\" }")]
+        for sec, (bef, aft) in [(s, a) for s in secs for a in around]:
+            ln = bef + secdom.fill(f["template"], [sec]) + aft
             i = ln.index(sec)
             toks = ln.split()
             idx = [k for k, t in enumerate(toks) if sec in t][0]
